@@ -21,7 +21,8 @@ RULE = (
     "case = proto tape (vlib/protogen) + edit script over the deserialized model: rotate/reverse node order, insert "
     "node with fresh names, swap an initializer's tensor for Tensor/PackedTensor/LazyTensor/StringTensor/ExternalTensor, "
     "drop type+shape of a value, rename value/node to a fresh name, resize inputs (None) / outputs ('' name), remove an "
-    "unused node, edit doc strings and metadata, replace_all_uses_with, add a nested graph capturing outer values. "
+    "unused node, edit doc strings and metadata, replace_all_uses_with, add a nested graph capturing outer values, device annotations on nodes of any graph "
+    "(IR>=11), tensor metadata edits (clear/pop/add), an inner value shadowing the name of an outer value it does not see. "
     "Only name-valid end states are generated (fresh names are unique model-wide; a value with a shape has a type). "
     "Non-trivial = >=3 nodes and >=1 of: nested graph with captured value, function, unsorted order, optional "
     "input/output, non-proto tensor class. distinct = case JSON."
@@ -32,7 +33,7 @@ ASSUMPTIONS = [
     "device configurations are compared only at IR version >= 11; function value info only at IR version >= 10",
 ]
 BUDGET = {"quick": (16, 500), "thorough": (16, 12000)}
-N_OPS = 14
+N_OPS = 17
 
 
 def strategy(tier, phase):
@@ -204,6 +205,51 @@ def apply_op(c, op):
             n.replace_input_with(len(n.inputs) - 1, v)
 
 
+    elif k == 14 and nodes and c.model.ir_version >= 11:  # device annotation on a node of ANY graph (nested, function body)
+        cfgs = list(c.model.device_configurations)
+        if not cfgs or d % 5 == 0:
+            nd = 1 + d % 3
+            cfgs.append(c.model.add_device_configuration(c.fresh("cfg"), num_devices=nd, device_names=[f"dev{i}" for i in range(nd)] if d % 2 else ()))
+        cfg = cfgs[b % len(cfgs)]
+        n = nodes[d % len(nodes)]
+        n.set_pipeline_stage(cfg, d % 3)
+        ranked = [v for v in list(n.inputs) + list(n.outputs) if v is not None and v.name and v.shape is not None and len(v.shape) >= 1]
+        if ranked and d % 2:
+            n.shard(ranked[b % len(ranked)], configuration=cfg, axis=0, num_shards=2, device_indices=list(range(min(2, cfg.num_devices))))
+        c.flags.add("device_annotation" + ("_nested" if g is not c.model.graph and all(g is not f.graph for f in c.model.functions.values()) else ""))
+    elif k == 15:  # edit the metadata of a tensor (initializer or TENSOR attribute), whatever class it has
+        tensors = [v.const_value for v in g.initializers.values() if v.const_value is not None]
+        tensors += [a.value for n in nodes for a in n.attributes.values() if not a.is_ref() and a.type == ir.AttributeType.TENSOR and a.value is not None]
+        if tensors:
+            t = tensors[b % len(tensors)]
+            md = t.metadata_props
+            if d % 3 == 0:
+                md.clear()
+                c.flags.add("tensor_metadata_cleared")
+            elif d % 3 == 1 and len(md):
+                md.pop(sorted(md)[0])
+            else:
+                md[f"c03k{d % 2}"] = f"v{d}"
+            c.flags.add("tensor_metadata_edit")
+    elif k == 16 and nodes:  # an inner value takes the name of an outer value it does not see (legal shadowing)
+        subs = [sg for n in nodes for a in n.attributes.values() if not a.is_ref() and a.type in (ir.AttributeType.GRAPH, ir.AttributeType.GRAPHS)
+                for sg in ([a.value] if a.type == ir.AttributeType.GRAPH else list(a.value))]
+        subs = [sg for sg in subs if len(sg)]
+        outer = [o for n in nodes for o in n.outputs if o.name] + [v for v in g.inputs if v.name] + [v for v in g.initializers.values() if v.name]
+        if subs and outer:
+            sg = subs[b % len(subs)]
+            w = outer[d % len(outer)]
+            deep = list(ir.traversal.RecursiveGraphIterator(sg))
+            names_inside = {v.name for n in deep for v in list(n.inputs) + list(n.outputs) if v is not None}
+            for sgg in [sg] + list(sg.subgraphs()):
+                names_inside |= {v.name for v in list(sgg.inputs) + list(sgg.initializers.values()) + list(sgg.outputs)}
+            if w.name not in names_inside:  # w neither captured nor otherwise named inside
+                inner_vals = [o for n in sg for o in n.outputs if o.name and not o.is_initializer()]
+                if inner_vals:
+                    inner_vals[(b + d) % len(inner_vals)].name = w.name
+                    c.flags.add("shadowing")
+
+
 def execute(case):
     import onnx_ir as ir
     from vlib import iso, protogen, snapshot
@@ -269,7 +315,7 @@ def execute(case):
         feats.add("unsorted")
     if features & {"optional_input", "empty_output"}:
         feats.add("optional_io")
-    nontrivial = n_nodes >= 3 and bool(feats & {"nested_capture", "function", "unsorted", "optional_io", "tensor_class", "nested_graph"})
+    nontrivial = n_nodes >= 3 and bool(feats & {"nested_capture", "function", "unsorted", "optional_io", "tensor_class", "nested_graph", "shadowing", "device_annotation_nested", "tensor_metadata_edit"})
     seen, out = set(), []
     for b_, m in fails:
         if b_ not in seen:
